@@ -100,7 +100,7 @@ def single_defs(f: Func) -> Dict[str, ast.AST]:
         elif isinstance(n, (ast.AugAssign, ast.AnnAssign)):
             for name in target_names(n.target):
                 counts[name] = counts.get(name, 0) + 2
-        elif isinstance(n, (ast.For, ast.comprehension)):
+        elif isinstance(n, ast.For):
             for name in target_names(n.target):
                 counts[name] = counts.get(name, 0) + 2
         elif isinstance(n, ast.With):
@@ -113,8 +113,30 @@ def single_defs(f: Func) -> Dict[str, ast.AST]:
 
 
 class _Subst(ast.NodeTransformer):
+    """Substitute Name loads; names re-bound by a comprehension or lambda are left
+    alone inside it (they are a different variable there)."""
+
     def __init__(self, mapping: Dict[str, ast.AST]):
         self.mapping = mapping
+
+    def _scoped(self, node, bound):
+        hidden = {k: self.mapping.pop(k) for k in list(self.mapping) if k in bound}
+        try:
+            return self.generic_visit(node)
+        finally:
+            self.mapping.update(hidden)
+
+    def _comp(self, node):
+        bound = set()
+        for g in node.generators:
+            bound |= set(target_names(g.target))
+        return self._scoped(node, bound)
+
+    visit_ListComp = visit_SetComp = visit_GeneratorExp = visit_DictComp = _comp
+
+    def visit_Lambda(self, node):
+        a = node.args
+        return self._scoped(node, {p.arg for p in a.posonlyargs + a.args + a.kwonlyargs})
 
     def visit_Name(self, node: ast.Name):
         if isinstance(node.ctx, ast.Load) and node.id in self.mapping:
